@@ -187,8 +187,8 @@ def run_c14(o, tier, rng, prep):
         # number, and asking again gives the same number (the evaluation depends on nothing else)
         for k in range(3):
             w = res[i + k]["I"].split(" ")
-            if len(w) >= 6 and (int(w[3]) != -int(w[1]) or int(w[5]) != int(w[1])):
-                o.violation("input", "evaluation depends on more than placement and side: eval=%s, side handed over=%s, asked again=%s for %s" % (w[1], w[3], w[5], res[i + k]["case"]),
+            if len(w) >= 8 and (int(w[3]) != -int(w[1]) or int(w[5]) != int(w[1]) or int(w[7]) != int(w[1])):
+                o.violation("input", "evaluation depends on more than placement and side: eval=%s, side handed over=%s, asked again=%s, other record fields disturbed=%s for %s" % (w[1], w[3], w[5], w[7], res[i + k]["case"]),
                             {"case": res[i + k]["case"], "values": w})
         if bound is not None and abs(a) >= bound:
             o.violation("input", "evaluation %d reaches the mate range for %s" % (a, res[i]["case"]), {"case": res[i]["case"], "value": a})
